@@ -225,6 +225,17 @@ where
                 self.encode_texts_element(&texts[..], *de)?;
                 Ok(())
             }
+            PrimitiveValue::U8(bytes) if de.vr == VR::OW => {
+                // 8-bit samples held as bytes under OW are 16-bit words on the wire:
+                // pack them into words (native little endian order, zero padded)
+                // and let the encoder apply the byte order of the transfer syntax,
+                // exactly as it does for words held as `U16`
+                let words: dicom_core::value::C<u16> = bytes
+                    .chunks(2)
+                    .map(|c| u16::from_le_bytes([c[0], c.get(1).copied().unwrap_or(0)]))
+                    .collect();
+                self.encode_primitive_element(de, &PrimitiveValue::U16(words))
+            }
             _ => {
                 // if VR is DS or IS and the value is binary,
                 // write value as a string instead
